@@ -263,6 +263,9 @@ func rewriteFile(p *packages.Package, f *ast.File, fname string, rep *report, ne
 			}
 			c.Replace(&ast.ForStmt{For: n.For, Init: init, Cond: cond, Body: n.Body})
 			changed = true
+		case *ast.GoStmt:
+			// a goroutine started by the library itself runs outside the cooperative scheduler
+			rep.Uncontrolled = append(rep.Uncontrolled, fmt.Sprintf("%s:%d go statement (goroutine not under the controlled scheduler; only the free-running race pass observes it)", relName(fname), p.Fset.Position(n.Pos()).Line))
 		case *ast.CallExpr:
 			sel, ok := n.Fun.(*ast.SelectorExpr)
 			if !ok {
